@@ -312,11 +312,49 @@ class Fn:
             self._flags = F
         return self._flags
 
+    @property
+    def tracked_bools(self):
+        """bool locals whose value is known on some paths: flags (every definition a constant), materialised short-circuit
+        results (`let t = a && b`: one definition a constant, another a comparison) and plain copies of those"""
+        if getattr(self, '_tracked', None) is None:
+            T = set(self.flags)
+            for l, ds in self.defs.items():
+                if l in T or l >= len(self.locals) or self.locals[l][0] != 'bool' or l <= self.nargs:
+                    continue
+                dd = [d for d in ds if d[0] in ('=', 'call')]
+                if len(dd) != len(ds) or any(d[0] == '=' and d[3][1] for d in dd) or l in self._mutref.values() or any(v[0] == l for v in self._mutref.values()):
+                    continue      # also written through a `&mut` (a closure capturing it, a callee): its value is not known from the statements here
+                if any(d[0] == '=' and not d[3][1] and d[4][0] == 'use' and d[4][1][0] == 'k' and 'val' in d[4][1][1] for d in dd):
+                    T.add(l)
+            changed = True
+            while changed:
+                changed = False
+                for l, ds in self.defs.items():
+                    if l in T or l >= len(self.locals) or self.locals[l][0] != 'bool' or l <= self.nargs:
+                        continue
+                    dd = [d for d in ds if d[0] in ('=', 'call')]
+                    if dd and all(d[0] == '=' and not d[3][1] and d[4][0] == 'use' and d[4][1][0] in ('m', 'c') and not d[4][1][1][1] and d[4][1][1][0] in T for d in dd):
+                        T.add(l)
+                        changed = True
+            self._tracked = T
+        return self._tracked
+
     def _flag_updates(self, bb):
+        """[(local, value)] with value a constant, ('copy', src) or None (unknown) for the tracked bools assigned in block bb"""
         ups = []
+        T = self.tracked_bools
         for st in self.blocks[bb]['s']:
-            if st[0] == '=' and not st[1][1] and st[1][0] in self.flags:
-                ups.append((st[1][0], st[2][1][1]['val']))
+            if st[0] == '=' and not st[1][1] and st[1][0] in T:
+                rv = st[2]
+                if rv[0] == 'use' and rv[1][0] == 'k' and 'val' in rv[1][1]:
+                    ups.append((st[1][0], rv[1][1]['val']))
+                elif rv[0] == 'use' and rv[1][0] in ('m', 'c') and not rv[1][1][1] and rv[1][1][0] in T:
+                    ups.append((st[1][0], ('copy', rv[1][1][0])))
+                else:
+                    ups.append((st[1][0], None))
+        t = self.blocks[bb]['t']
+        if t[0] == 'call' and not t[3][1] and t[3][0] in T:
+            ups.append((t[3][0], None))
         return ups
 
     def reach(self, starts, removed=(), blocked=(), use_flags=True, stop_at=None):
@@ -328,7 +366,7 @@ class Fn:
         seen = set()
         out = set()
         dq = deque()
-        flagset = self.flags if use_flags else {}
+        flagset = self.tracked_bools if use_flags else {}
         for s in starts:
             if s in blocked:
                 continue
@@ -343,7 +381,15 @@ class Fn:
             f = dict(facts)
             if flagset:
                 for (l, v) in self._flag_updates(bb):
-                    f[l] = v
+                    if v is None:
+                        f.pop(l, None)
+                    elif isinstance(v, tuple):
+                        if v[1] in f:
+                            f[l] = f[v[1]]
+                        else:
+                            f.pop(l, None)
+                    else:
+                        f[l] = v
             t = self.blocks[bb]['t']
             edges = self.succ[bb]
             if t[0] == 'switch' and flagset:
@@ -1436,10 +1482,24 @@ def _single_def(fn, l):
     return None
 
 
+def _semi_def(fn, l):
+    """`let t = a && b` / `a || b` materialised: one definition computes the condition, the others are bool constants (the
+    short-circuit arms, whose value the path-sensitive reachability knows). Returns the computing definition."""
+    if l >= len(fn.locals) or fn.locals[l][0] != 'bool':
+        return None
+    ds = [d for d in fn.defs.get(l, []) if d[0] in ('=', 'call')]
+    if len(ds) < 2 or len(ds) != len(fn.defs.get(l, [])) or l not in fn.tracked_bools:
+        return None
+    nonconst = [d for d in ds if not (d[0] == '=' and not d[3][1] and d[4][0] == 'use' and d[4][1][0] == 'k' and 'val' in d[4][1][1])]
+    if len(nonconst) == 1 and len(ds) - 1 >= 1:
+        return nonconst[0]
+    return None
+
+
 def _cond_of_local(fn, slicer, bi, l, t, neg, depth):
     if depth > 6:
         return None
-    d = _single_def(fn, l)
+    d = _single_def(fn, l) or _semi_def(fn, l)
     if d is None:
         # multi-def bool (phi of constants or user variable): describe by slice
         if fn.locals[l][0] == 'bool':
